@@ -14,6 +14,8 @@ package main
 // triggers: the generator knows by construction whether the failure is on an evaluated row.
 
 import (
+	"strings"
+	"sort"
 	"bytes"
 	"context"
 	"encoding/json"
@@ -99,6 +101,18 @@ func c19Exec(doc map[string]any, sql string) (out engineOut) {
 		if q != nil {
 			return engineOut{Class: "partial", Err: "New returned a query together with an error: " + err.Error()}
 		}
+		// the same text prepared again must fail again: a failed call leaves nothing behind (e.g. in the selector cache)
+		c19State.mu.Lock()
+		transient := c19State.failAt != 0 // an injected fault fires once: preparing again may legitimately succeed
+		c19State.mu.Unlock()
+		if transient {
+			return engineOut{Class: "error", Err: err.Error()}
+		}
+		if q2, err2 := genql.New(doc, sql); err2 == nil && q2 != nil {
+			if rows2, err3 := q2.Exec(); err3 == nil {
+				return engineOut{Class: "partial", Err: "New failed (" + err.Error() + "), the same text prepared again succeeded", Rows: normaliseRows(rows2)}
+			}
+		}
 		return engineOut{Class: "error", Err: err.Error()}
 	}
 	rows, err := q.Exec()
@@ -106,9 +120,48 @@ func c19Exec(doc map[string]any, sql string) (out engineOut) {
 		if rows != nil {
 			return engineOut{Class: "partial", Err: "Exec returned rows together with an error: " + err.Error(), Rows: normaliseRows(rows)}
 		}
-		return engineOut{Class: "error", Err: err.Error()}
+		out = engineOut{Class: "error", Err: err.Error()}
+		// the caller retries on the same Query object: it fails again or returns the complete result, never rows
+		// patched with what the failed run left behind
+		func() {
+			defer func() {
+				if r := recover(); r != nil {
+					out.Retry = &engineOut{Class: "panic", Err: fmt.Sprint(r)}
+				}
+			}()
+			rows2, err2 := q.Exec()
+			if err2 != nil {
+				out.Retry = &engineOut{Class: "error", Err: err2.Error()}
+			} else {
+				out.Retry = &engineOut{Class: "ok", Rows: normaliseRows(rows2)}
+			}
+		}()
+		return out
 	}
 	return engineOut{Class: "ok", Rows: normaliseRows(rows)}
+}
+
+// c19RetryBad: the retry of a failed Exec succeeded with something else than the fault-free result
+// (free == nil: the failure is deterministic, so a successful retry is wrong whatever it returns).
+func c19RetryBad(o engineOut, free *engineOut, multiset bool) bool {
+	if o.Class != "error" || o.Retry == nil || o.Retry.Class != "ok" {
+		return false
+	}
+	if free == nil || free.Class != "ok" {
+		return true
+	}
+	if true { // rows are compared as a multiset: a retry may emit them in another order (PARALLEL joins)
+		canon := func(rows []any) string {
+			items := make([]string, len(rows))
+			for i, r := range rows {
+				items[i] = coqValue(r)
+			}
+			sort.Strings(items)
+			return strings.Join(items, ";")
+		}
+		return canon(o.Retry.Rows) != canon(free.Rows)
+	}
+	return coqEngineObs(*o.Retry) != coqEngineObs(*free)
 }
 
 // c19SameAs compares v against the acyclic reference ref, guided by ref's structure (so a cycle that a
@@ -590,6 +643,12 @@ func c19RaiseCase(r *Rand, d c19Doc, cap int) Case {
 		q = c19Wrap(r, d, q, "union-right", "x")
 		q.Limit = nil
 		where = "union"
+		if r.Bool() && len(d.ids) > 0 {
+			// UNION ALL with a window the left side already fills: the right side is still evaluated, its failure surfaces
+			q.All = true
+			q.Limit = intp(1)
+			where = "union-all-limit-filled-by-left"
+		}
 	case 3:
 		sub := *q
 		sub.From = &From{K: "table", Path: []string{"<-", "t"}}
@@ -608,7 +667,7 @@ func c19TypeCase(r *Rand, d c19Doc, cap int) Case {
 	rows := d.t.rows
 	q := &Stmt{From: c19From("t"), Items: []Item{{E: Col("id")}}}
 	var fires bool
-	kind := Pick(r, []string{"where-nonbool-col", "where-nonbool-num", "having-nonbool", "case-nonbool", "arith-row-select", "arith-row-where", "arith-row-filtered", "arith-group", "on-nonbool", "orderby-through-scalar"})
+	kind := Pick(r, []string{"where-nonbool-col", "where-nonbool-num", "having-nonbool", "case-nonbool", "arith-row-select", "arith-row-where", "arith-row-filtered", "arith-group", "on-nonbool", "orderby-through-scalar", "bad-selector"})
 	multiset := false
 	plant := func() (float64, bool) {
 		if len(rows) == 0 {
@@ -669,6 +728,18 @@ func c19TypeCase(r *Rand, d c19Doc, cap int) Case {
 				fires = true
 			}
 		}
+	case "bad-selector":
+		// a selector that does not parse (as a column, evaluated per row; or as the FROM path): the error must come
+		// back every time the text is used
+		bad := Pick(r, []string{"o[latest].q", "o::[latest]::q", "items[(1:2:3)]", "o[99999999999999999999]"})
+		// (the engine model reads a quoted name as one key; the case is rendered as a call no model function answers,
+		// so the model is out of it and only "fails, leaves nothing behind, fails again" is judged)
+		if r.Bool() {
+			q.Items = []Item{{E: Col("id")}, {E: &Expr{K: "badsel", Str: bad}, Alias: "f"}}
+		} else {
+			q.Where = Cmp(">", &Expr{K: "badsel", Str: bad}, Num(0))
+		}
+		fires = len(rows) > 0
 	case "on-nonbool":
 		q.From = c19JoinFrom(r, nil)
 		q.From.On = And(q.From.On, Col("a", "id"))
@@ -778,6 +849,10 @@ func c19Observe(in c19In) (Observed, error) {
 	doc := deepCopy(in.Doc).(map[string]any)
 	c19Arm(true, 0, 0)
 	free := c19Exec(doc, sql)
+	if c19RetryBad(free, nil, in.Multiset) {
+		free = engineOut{Class: "partial", Err: "Exec failed without any injected fault, the retry on the same Query succeeded", Rows: free.Retry.Rows}
+		tags = append(tags, "retry-patched")
+	}
 	invs := c19Log()
 	freeUsable, why := c19Usable(doc, pristine)
 	tags = append(tags, "free:"+free.Class)
@@ -810,6 +885,10 @@ func c19Observe(in c19In) (Observed, error) {
 				doc := deepCopy(in.Doc).(map[string]any)
 				c19Arm(false, k, v.panics)
 				o := c19Exec(doc, sql)
+				if c19RetryBad(o, &free, in.Multiset) {
+					o = engineOut{Class: "partial", Err: "the retry of the failed Exec on the same Query returned a result that differs from the fault-free one", Rows: o.Retry.Rows}
+					tags = append(tags, "retry-patched")
+				}
 				usable, why := c19Usable(doc, pristine)
 				runs = append(runs, "("+c19Outcome(o)+", "+coqBool(usable)+")")
 				notes = append(notes, runNote{K: k, Variant: v.name, Tag: jsonSafe(invs[k-1].Tag), X: jsonSafe(invs[k-1].X), Class: o.Class, Err: o.Err, Usable: usable, Why: why})
